@@ -111,12 +111,16 @@ func (m *tmodel) trigger() (outl []tline) {
 }
 func (m *tmodel) close() { m.held = nil }
 
-var c15levels = []zerolog.Level{-128, -1, 0, 1, 3, 9, 11, 127}
+var c15levels = []zerolog.Level{-128, -1, 0, 1, 3, 9, 11, 13, 127}
 
 func c15body(r *rng.R, id int) string {
 	switch r.Intn(12) {
 	case 0:
 		return "\n"
+	case 4:
+		return fmt.Sprintf("%d crlf\r\n", id) // a line whose last byte before the newline is a carriage return
+	case 5:
+		return []string{"\r\n", "\r\r\n", "\n"}[id%3]
 	case 1:
 		return fmt.Sprintf("%d\x00\xff\x0b\n", id)
 	case 2:
